@@ -272,6 +272,16 @@ def drop_task(pl, t):
             to -= 1
         sw.append([task, op, off, to, cause])
     q["sw"] = sw
+    # faults that stay in an explicit plan (clock jumps) follow their task
+    fl = []
+    for f in q.get("faults", []):
+        kind, task, op, off, arg = f
+        if task == t:
+            continue
+        if t < task < 16:
+            task -= 1
+        fl.append([kind, task, op, off, arg])
+    q["faults"] = fl
     return q
 
 
@@ -288,6 +298,16 @@ def drop_op(pl, t, i):
                 op -= 1
         sw.append([task, op, off, to, cause])
     q["sw"] = sw
+    fl = []
+    for f in q.get("faults", []):
+        kind, task, op, off, arg = f
+        if task == t:
+            if op == i:
+                continue
+            if op > i:
+                op -= 1
+        fl.append([kind, task, op, off, arg])
+    q["faults"] = fl
     return q
 
 
@@ -823,7 +843,7 @@ class Agg:
         self.events = 0
         self.switches = 0
         self.forced = 0
-        self.fired = [0, 0, 0]
+        self.fired = [0, 0, 0, 0]
         self.throws = 0
         self.guard_init = 0
         self.guard_block = 0
@@ -883,8 +903,8 @@ class Agg:
                 self.events += r["events"]
                 self.switches += r["switches"]
                 self.forced += r["forced"]
-                for i in range(3):
-                    self.fired[i] += r["fired"][i]
+                for i, v in enumerate(r["fired"][:4]):
+                    self.fired[i] += v
                 self.throws += r["throws"]
                 self.guard_init += r["guard_init"]
                 self.guard_block += r["guard_block"]
@@ -928,7 +948,7 @@ class Agg:
     def summary(self, wall):
         return ("C18: %d runs over %d workloads in %.0fs (%.0f runs/h), %d events, %d switches, classes %s, "
                 "distinct schedules %d, conflict signatures %d, nontrivial %d, cells %d/%d (inside %d, overlap %d), "
-                "faults fired preempt/stall/late %s, throws %d, guard_init %d guard_block %d preempt_in_init %d, twice %d/%d" % (
+                "faults fired preempt/stall/late/clock %s, throws %d, guard_init %d guard_block %d preempt_in_init %d, twice %d/%d" % (
                     self.runs, self.workloads, wall, self.runs / max(wall, 1e-9) * 3600, self.events, self.switches,
                     dict(self.cls), len(self.sched_set), len(self.csig_set), len(self.nontrivial), len(self.cells),
                     len(self.all_cells()), len(self.inside), len(self.overlap), self.fired, self.throws, self.guard_init,
@@ -981,7 +1001,7 @@ def write_c18_evidence(ctx, tier, agg, wall, nviol, known_hits, variants, machin
             "forced_switches": agg.forced,
             "distinct_schedules": len(agg.sched_set),
             "distinct_conflict_order_signatures": len(agg.csig_set),
-            "fault_kinds_fired": {"preempt": agg.fired[0], "stall": agg.fired[1], "late_start": agg.fired[2],
+            "fault_kinds_fired": {"preempt": agg.fired[0], "stall": agg.fired[1], "late_start": agg.fired[2], "clock_jump": agg.fired[3],
                                   "cold_start_runs": agg.cold, "warm_runs": agg.warm, "callback_throw": agg.throws},
             "probes": {"static_initialisers_run_inside_simulation": agg.guard_init, "guard_block": agg.guard_block,
                        "preempt_inside_initialiser": agg.preempt_in_init, "mutex_block": agg.mutex_block,
